@@ -37,6 +37,7 @@ def jobs(tier):
         if j.name in ("range.m_error", "spline.knots.n1", "spline.knots.n2", "spline.linear"):
             j.name = "noise_grid." + j.name      # clause: noise vectors on their own grid pass through the given points
             j.canary = False
+            j.imported = True
             J.append(j)
     return J
 
